@@ -52,6 +52,9 @@ inductive Situation where
   /-- present and drifted, and the server answers the mutating call (PATCH, or the DELETE of
       recreate / delete-if-exists) with an error status (422, 409, 500, …) -/
   | presentDriftedRejected
+  /-- present (and drifted) when loaded, but gone by the time the mutating call arrives: the server
+      answers 404 (another deleter, the garbage collector) -/
+  | presentVanished
   deriving Repr, BEq, DecidableEq
 
 /-- what reaches the API: nothing at all; reads only (the load); or the load plus one mutation -/
@@ -81,9 +84,11 @@ def Situation.isAbsent : Situation → Bool
 def Situation.isDrifted : Situation → Bool
   | .presentDrifted => true
   | .presentDriftedRejected => true
+  | .presentVanished => true
   | _ => false
 def Situation.mutationRejected : Situation → Bool
   | .presentDriftedRejected => true
+  | .presentVanished => true
   | _ => false
 def Action.isMutation : Action → Bool
   | .create => true
